@@ -21,7 +21,7 @@ def lvalue_root(x):
             x = x[1]
         elif h == "ctor" and len(x[2]) == 1 and x[1].endswith("Index"):
             x = x[2][0]
-        elif h == "call" and x[1].split("::")[-1] in ("operator[]", "updElt", "upd", "updAs", "operator*", "operator->"):
+        elif h == "call" and x[1].split("::")[-1] in ("operator[]", "updElt", "upd", "updAs", "operator*", "operator->", "updRef", "getRef", "get", "getElt"):
             x = x[2]
         else:
             break
